@@ -11,5 +11,13 @@ REGISTRY = {
                     "TLC checks compositionality/idempotence laws for every term of the universe (depth 1 full alphabet, depth 2 reduced; thorough: larger) and emits the terms; each term is placed in "
                     "five positions of a real package, run through the CLI, and C05_Trace judges ObsCanon(stub type) = Canon(annotation) per position.",
             "ref": "DESIGN.md section 7 C05", "note": BASE_NOTE, "technique": TECH},
+    "C07": {"text": "spec/Results.tla models result construction (Decide annotation/inference -> Name): TLC checks none/tuple/one-result, covering and naming invariants for every "
+                    "annotated scenario (60 return annotations x docstring shapes of 4 styles) and every statement tree of return literals up to depth 2 (7.6k bodies), and emits them; "
+                    "each is run through the CLI and C07_Trace judges result count/types (equality for annotated, covering for inferred) and names.",
+            "ref": "DESIGN.md section 7 C07", "note": BASE_NOTE, "technique": TECH},
+    "C14": {"text": "spec/Reconcile.tla models per-slot reconciliation of hint and docstring type with the warning log; TLC checks the choice/warning invariants over all "
+                    "slot combinations (<=2 parameters + result, 3 hints x 4 docstring types) x 3 styles x 2 preferences x 2 warning settings and emits 22.6k scenarios; 12 real runs are judged by "
+                    "C14_Trace on chosen types, per-function WARNING counts and byte-identity of the output under WARN vs IGNORE.",
+            "ref": "DESIGN.md section 7 C14", "note": BASE_NOTE + " Known findings: Google-style result types (see KNOWN_FINDINGS.txt).", "technique": TECH},
 }
 NOT_APPLICABLE = {}
